@@ -25,6 +25,9 @@ type c03Lists struct {
 	Allow []string `json:"allowed_clients"`
 	Deny  []string `json:"disallowed_clients"`
 	Hosts []string `json:"blocked_hosts"`
+	// HandleDDR is the server's dns.handle_ddr setting (not an access list,
+	// but it decides whether _dns.resolver.arpa is answered locally).
+	HandleDDR bool `json:"handle_ddr"`
 }
 
 func (l *c03Lists) canon() string {
@@ -498,9 +501,51 @@ var (
 		dns.TypePTR, dns.TypeANY, dns.TypeNS, dns.TypeCNAME, dns.TypeSRV}
 )
 
+// c03Special are names the request pipeline treats specially (DDR, Firefox
+// canary, the upstream health check, DNS64, private reverse zones, the local
+// domain, localhost).  The access decision must not depend on that.
+var c03Special = []string{"_dns.resolver.arpa", "_dns.resolver.arpa", "use-application-dns.net", "healthcheck.adguardhome.test",
+	"ipv4only.arpa", "1.0.0.10.in-addr.arpa", "4.3.2.1.in-addr.arpa",
+	"1.0.0.0.0.0.0.0.0.0.0.0.0.0.0.0.0.0.0.0.0.0.0.0.0.0.0.0.0.0.d.f.ip6.arpa", "host.lan", "lan", "localhost", "resolver.arpa"}
+
+// c03SpecialQTypes are the types used with them.
+var c03SpecialQTypes = []uint16{dns.TypeSVCB, dns.TypeSVCB, dns.TypeA, dns.TypeAAAA, dns.TypeHTTPS, dns.TypePTR, dns.TypePTR, dns.TypeANY, dns.TypeTXT}
+
+// c03IsSpecial reports whether the (normalised) name is one of them.
+func c03IsSpecial(qname string) bool {
+	h := c03NormName(qname)
+	if h == "." {
+		return true
+	}
+	for _, s := range c03Special {
+		if s == h {
+			return true
+		}
+	}
+
+	return false
+}
+
 // c03GenHostPattern generates one blocked-host pattern in the forms the access
 // code accepts.
 func c03GenHostPattern(rng *rand.Rand) string {
+	if rng.Intn(7) == 0 {
+		// A special name as an entry.  Names with an underscore are not host
+		// names, so only the anchored form is unambiguous for them.
+		d := c03Special[rng.Intn(len(c03Special))]
+		if rng.Intn(3) == 0 {
+			if i := strings.IndexByte(d, '.'); i >= 0 {
+				d = d[i+1:]
+			} else {
+				d = "arpa"
+			}
+		}
+		if strings.Contains(d, "_") || rng.Intn(2) == 0 {
+			return "||" + d + "^"
+		}
+
+		return d
+	}
 	d := c03Domains[rng.Intn(len(c03Domains))]
 	if rng.Intn(3) == 0 {
 		d = c03Subs[rng.Intn(len(c03Subs))] + "." + d
@@ -562,6 +607,17 @@ func c03PatternBase(p string) string {
 // c03GenName generates a query name aimed at the patterns: the pattern's own
 // name, sub-domains, the parent, look-alikes, unrelated names; mixed case.
 func c03GenName(rng *rand.Rand, hosts []string) string {
+	if rng.Intn(6) == 0 {
+		n := c03Special[rng.Intn(len(c03Special))]
+		switch rng.Intn(8) {
+		case 0:
+			n = c03MixCase(rng, n)
+		case 1:
+			n = "a." + n
+		}
+
+		return n + "."
+	}
 	var base string
 	if len(hosts) > 0 && rng.Intn(8) != 0 {
 		base = strings.ToLower(c03PatternBase(hosts[rng.Intn(len(hosts))]))
